@@ -138,7 +138,7 @@ def run(vc):
               "lightsim2grid rejects; a non-observable state estimation with closed bus-bus switches (both skipped with a note when the module "
               "is not importable)",
         script="import sys\nfrom replaylib.netframe import main_3ph, main_other_drivers\n"
-               "for f in (main_3ph, main_other_drivers):\n    try:\n        f()\n    except SystemExit as e:\n        if e.code:\n            raise\n",
+               "from replaylib import run_all\nrun_all(main_3ph, main_other_drivers)\n",
         timeout=900))
 
 
